@@ -36,7 +36,9 @@ WEIGHTS = {"fuse": 3, "reshape": 2, "tensordot": 3, "svd_truncated": 2,
            "qr": 2, "svd": 2, "eigh": 3, "add": 2, "mul": 2, "sum": 2,
            "abs": 2, "item": 2, "dagger": 2, "conj": 2, "transpose": 3,
            "unfuse": 3, "matmul": 2, "einsum": 3, "trace": 3, "to_dense": 2,
-           "copy": 1, "phase_flip": 2, "phase_transpose": 2}
+           "copy": 1, "phase_flip": 2, "phase_transpose": 2,
+           "multiply_diagonal": 4, "phase_global": 4, "align_axes": 2,
+           "sync_charges": 2, "squeeze": 2, "expand_dims": 2}
 
 
 def canon(name, res):
